@@ -61,6 +61,9 @@ def run(rep):
     from . import modside as ms
     from .. import genpf, pymach as pm
     mods = ms.gen_modules(rng, 40 if quick else 800)
+    # a third of the modules additionally call the interpreter's own `instantiate` with an empty map (no step may be lost
+    # in either format)
+    mods = [(m[0], m[1], m[2], [genpf.with_raw_instantiate(rng, pf) for pf in m[3]], m[4]) if rng.random() < 0.34 else m for m in mods]
     strs = [genpf.module_to_s(m) for m in mods]
     memo = core.py_h([f'module-memo {m}' for m in strs])
     breqs, preqs = [], []
